@@ -16,11 +16,28 @@ package majority
 //@   thread
 //@   requires s != nil && opts != nil && provider != nil && !closed(respCh) && !closed(errCh)
 //@   // go-eth2-client returns a response with every nil error
-//@   assumes call BeaconBlockRoot#1 (r, err): err == nil ==> r != nil
+//@   assumes call BeaconBlockRoot#1 (r, err): err == nil ==> r != nil && r.Data != nil
+//@   chaninv respCh (m): m != nil && m.root != nil
+//@   chaninv errCh (m): m != nil
 //@   exit sends() == 1
 //@
+//@ // ---- C07: the most frequently reported root (of the responses received), an error exactly when none was received ----
 //@ func (*Service).BeaconBlockRoot
-//@   requires s != nil && opts != nil
+//@   requires s != nil && opts != nil && s.blockRootToSlotCache != nil
+//@   chaninv respCh (m): m != nil && m.root != nil
+//@   chaninv errCh (m): m != nil
+//@   // beaconBlockRootCounts[r]: the number of responses received so far that reported root r
+//@   loop 2
+//@     invariant beaconBlockRootCounts != nil && (forall r phase0.Root {in(beaconBlockRootCounts, r)} :: in(beaconBlockRootCounts, r) ==> beaconBlockRootCounts[r] >= 1)
+//@   loop 3
+//@     invariant beaconBlockRootCounts != nil && (forall r phase0.Root {in(beaconBlockRootCounts, r)} :: in(beaconBlockRootCounts, r) ==> beaconBlockRootCounts[r] >= 1)
+//@   loop 4
+//@     invariant bestRootCount >= 0 && (bestRootCount > 0 ==> in(beaconBlockRootCounts, bestRoot) && beaconBlockRootCounts[bestRoot] == bestRootCount)
+//@     invariant forall r phase0.Root :: visited(2, r) ==> beaconBlockRootCounts[r] <= bestRootCount
+//@     invariant forall r phase0.Root {in(beaconBlockRootCounts, r)} :: in(beaconBlockRootCounts, r) ==> beaconBlockRootCounts[r] >= 1
+//@   // an error exactly when no root was reported; otherwise a reported root that no other reported root outnumbers
+//@   ensures result1 != nil <==> (forall r phase0.Root {in(beaconBlockRootCounts, r)} :: !in(beaconBlockRootCounts, r))
+//@   ensures result1 == nil ==> result0 != nil && result0.Data != nil && in(beaconBlockRootCounts, deref(result0.Data)) && (forall r phase0.Root {in(beaconBlockRootCounts, r)} :: in(beaconBlockRootCounts, r) ==> beaconBlockRootCounts[r] <= beaconBlockRootCounts[deref(result0.Data)])
 //@   // nstarted: the number of goroutines started so far. A goroutine is only started while both channels have room
 //@   // for one more message than there are goroutines already: as each sends exactly one message, none can block when
 //@   // the requester has stopped listening
